@@ -45,7 +45,9 @@ class Span:
         if s.step not in (None, 1):
             raise TypeError("Span: step")
         a, b = clamp_slice(self.hi - self.lo, s)
-        return Span(self.lo + a, self.lo + b, self.tag)
+        sp = Span(self.lo + a, self.lo + b, self.tag)
+        sp.origin = getattr(self, "origin", None)
+        return sp
 
     def __eq__(self, o):
         return isinstance(o, Span) and (self.lo, self.hi, self.tag) == (o.lo, o.hi, o.tag)
@@ -55,10 +57,12 @@ class Span:
 
 
 class SpanFile:
-    """file object of symbolic size; read(n) returns the span actually available and advances"""
+    """file object of symbolic size; read(n) returns the span actually available and advances.
+    `origin` identifies the filesystem instance the bytes come from (two products may hold files of the same name)."""
 
-    def __init__(self, size, log, tag=None):
+    def __init__(self, size, log, tag=None, origin=None):
         self.size, self.pos, self.log, self.tag = size, 0, log, tag
+        self.origin = origin
         self.closed = False
 
     def seek(self, o, whence=0):
@@ -76,7 +80,9 @@ class SpanFile:
         hi = self.size if (n is None or n < 0) else min(self.pos + n, self.size)
         self.log.append(("read", self.tag, self.pos, n))
         self.pos = hi
-        return Span(lo, hi, self.tag)
+        sp = Span(lo, hi, self.tag)
+        sp.origin = self.origin
+        return sp
 
     def close(self):
         self.closed = True
@@ -93,7 +99,11 @@ class SpanFile:
 class StubFS:
     """filesystem with named files of given sizes; open() of an unknown name raises FileNotFoundError"""
 
+    _count = [0]
+
     def __init__(self, files, log=None, path=None, protocol="file"):
+        StubFS._count[0] += 1
+        self.uid = StubFS._count[0]
         self.files = files  # name -> size
         self.log = [] if log is None else log
         self.path = path
@@ -103,7 +113,7 @@ class StubFS:
         self.log.append(("open", url, mode))
         if url not in self.files:
             raise FileNotFoundError(url)
-        return SpanFile(self.files[url], self.log, tag=url)
+        return SpanFile(self.files[url], self.log, tag=url, origin=self.uid)
 
 
 class RecParser:
